@@ -22,7 +22,7 @@
 From Coq Require Import List Arith Bool Lia.
 Import ListNotations.
 From TF Require Import Base.Hier Base.Ty Sub.SubSpec Infer.Store Infer.Engine Infer.Run
-  Infer.Inv.
+  Infer.Witness Infer.Check Infer.Inv.
 From TF Require Infer.Lub.
 
 Unset Implicit Arguments.
@@ -243,19 +243,100 @@ Proof.
   intros N j. destruct (cset_of_set_cset s i [] j) as [(E & _)|E]; rewrite E; auto.
 Qed.
 
+(* frame: bound variables stay bound and keep their bounds; a variable that
+   carries a bound when it gets bound denotes a base type (this is what makes
+   "a bounded variable is never resolved to a compound type" true) *)
+Definition hasb (c : cell) : Prop := c_lower c <> None \/ c_upper c <> None.
+Definition isbase (d : ty) : Prop := exists b, d = TOp b [].
+
+Record fr (s s' : store) : Prop := mkFr {
+  fr_keep : forall x, c_bound (cell_of s x) <> None -> c_bound (cell_of s' x) <> None;
+  fr_frame : forall x, c_bound (cell_of s x) <> None ->
+    c_lower (cell_of s' x) = c_lower (cell_of s x) /\ c_upper (cell_of s' x) = c_upper (cell_of s x);
+  fr_new : forall x, c_bound (cell_of s x) = None -> c_bound (cell_of s' x) <> None ->
+    hasb (cell_of s' x) -> forall th, sat th s' -> isbase (th x)
+}.
+
+Lemma inb_hasb_base c d : inb c d -> hasb c -> isbase d.
+Proof.
+  intros [Il Iu] [Hl|Hu].
+  - destruct (c_lower c) as [l|]; [|congruence]. destruct (Il l eq_refl) as (b & -> & _). exists b. reflexivity.
+  - destruct (c_upper c) as [u|]; [|congruence]. destruct (Iu u eq_refl) as (b & -> & _). exists b. reflexivity.
+Qed.
+
+Lemma fr_refl s : fr s s.
+Proof. constructor; auto. intros x Hx Hx'. congruence. Qed.
+
+Lemma fr_trans s1 s2 s3 : fr s1 s2 -> fr s2 s3 -> (forall th, sat th s3 -> sat th s2) -> fr s1 s3.
+Proof.
+  intros [K1 F1 N1] [K2 F2 N2] M. constructor.
+  - auto.
+  - intros x Hx. destruct (F1 x Hx) as [A B]. destruct (F2 x (K1 x Hx)) as [A' B']. split; congruence.
+  - intros x Hx Hx3 Hb th S3.
+    destruct (c_bound (cell_of s2 x)) as [t|] eqn:Hx2.
+    + apply (N1 x Hx); [congruence| |auto].
+      destruct (F2 x) as [A B]; [congruence|]. unfold hasb in *. rewrite <- A, <- B. exact Hb.
+    + apply (N2 x Hx2 Hx3 Hb th S3).
+Qed.
+
+Lemma fr_semeq s s' : semeq s s' -> fr s s'.
+Proof.
+  intros [L C]. constructor.
+  - intros x. destruct (C x) as (Eb & _). rewrite Eb. auto.
+  - intros x _. destruct (C x) as (_ & El & Eu). auto.
+  - intros x Hx. destruct (C x) as (Eb & _). rewrite Eb. congruence.
+Qed.
+
+(* setting a field of an unbound variable that stays unbound *)
+Lemma fr_set_cell_unb s v c' : c_bound (cell_of s v) = None -> c_bound c' = None -> fr s (set_cell s v c').
+Proof.
+  intros Hv Hc. constructor.
+  - intros x Hx. destruct (cell_of_set_cell s v c' x) as [(E & -> & L)|E]; [congruence|rewrite E; auto].
+  - intros x Hx. destruct (cell_of_set_cell s v c' x) as [(E & -> & L)|E]; [congruence|rewrite E; auto].
+  - intros x Hx Hx'. destruct (cell_of_set_cell s v c' x) as [(E & -> & L)|E]; rewrite E in Hx'; congruence.
+Qed.
+
+(* the whole of a bind: v gets bound (store s2), bookkeeping (s5), then the
+   rest of the operation (s'), which as a whole refines s *)
+Lemma fr_bind s s2 s5 s' v t : c_bound (cell_of s v) = None ->
+  (forall x, x <> v -> cell_sem (cell_of s x) (cell_of s2 x)) ->
+  c_bound (cell_of s2 v) = Some t ->
+  c_lower (cell_of s2 v) = c_lower (cell_of s v) -> c_upper (cell_of s2 v) = c_upper (cell_of s v) ->
+  semeq s2 s5 -> fr s5 s' -> (forall th, sat th s' -> sat th s) -> fr s s'.
+Proof.
+  intros Hv Hx Hb Hl Hu [_ C25] [K F N] M.
+  assert (Cx : forall x, x <> v -> cell_sem (cell_of s x) (cell_of s5 x)).
+  { intros x Ne. destruct (Hx x Ne) as (a & b & c). destruct (C25 x) as (a' & b' & c').
+    repeat split; congruence. }
+  assert (Bv : c_bound (cell_of s5 v) <> None).
+  { destruct (C25 v) as (a & _). rewrite a, Hb. discriminate. }
+  constructor.
+  - intros x Hx0. assert (Ne : x <> v) by (intros ->; congruence).
+    apply K. destruct (Cx x Ne) as (a & _). congruence.
+  - intros x Hx0. assert (Ne : x <> v) by (intros ->; congruence).
+    destruct (Cx x Ne) as (a & b & c). destruct (F x) as [A B]; [congruence|]. split; congruence.
+  - intros x Hx0 Hx' Hbx th S'. destruct (Nat.eq_dec x v) as [->|Ne].
+    + destruct (F v Bv) as [A B]. destruct (C25 v) as (_ & b & c).
+      assert (Hbv : hasb (cell_of s v)).
+      { unfold hasb in *. rewrite <- Hl, <- Hu, <- b, <- c, <- A, <- B. exact Hbx. }
+      destruct (M th S' v) as [_ Sv]. rewrite Hv in Sv. eapply inb_hasb_base; eauto.
+    + destruct (Cx x Ne) as (a & _). apply (N x); auto. congruence.
+Qed.
+
 (* the standard postcondition: the final store satisfies J, refines the
    initial one, and every grounding satisfying it has property R *)
 Definition good (s : store) (R : (nat -> ty) -> Prop) (s' : store) : Prop :=
-  J s' /\ le s s' /\ forall th, sat th s' -> R th.
+  J s' /\ le s s' /\ fr s s' /\ forall th, sat th s' -> R th.
 
 Lemma good_refl s (R : (nat -> ty) -> Prop) : J s -> (forall th, sat th s -> R th) -> good s R s.
-Proof. intros I HR. split; [auto|split; [apply le_refl|auto]]. Qed.
+Proof. intros I HR. split; [auto|split; [apply le_refl|split; [apply fr_refl|auto]]]. Qed.
 
 Lemma good_trans s s1 s2 (R1 R2 R : (nat -> ty) -> Prop) :
   good s R1 s1 -> good s1 R2 s2 ->
   (forall th, sat th s2 -> sat th s1 -> sat th s -> R1 th -> R2 th -> R th) -> good s R s2.
 Proof.
-  intros (I1 & L1 & H1) (I2 & L2 & H2) K. split; [auto|split; [eapply le_trans; eauto|]].
+  intros (I1 & L1 & F1 & H1) (I2 & L2 & F2 & H2) K.
+  split; [auto|split; [eapply le_trans; eauto|split; [eapply fr_trans; eauto; apply L2|]]].
   intros th S2. pose proof (proj2 L2 th S2) as S1. pose proof (proj2 L1 th S1) as S0.
   apply K; auto.
 Qed.
@@ -263,7 +344,7 @@ Qed.
 Lemma good_semeq s s' (R : (nat -> ty) -> Prop) :
   J s -> semeq s s' -> nocs s' -> (forall th, sat th s -> R th) -> good s R s'.
 Proof.
-  intros I E N HR. split; [eapply J_semeq; eauto|split; [apply le_semeq; auto|]].
+  intros I E N HR. split; [eapply J_semeq; eauto|split; [apply le_semeq; auto|split; [apply fr_semeq; auto|]]].
   intros th S. apply HR. eapply sat_semeq; eauto.
 Qed.
 
@@ -410,7 +491,7 @@ Qed.
 
 Lemma good_weaken s s' (R1 R : (nat -> ty) -> Prop) :
   good s R1 s' -> (forall th, sat th s' -> R1 th -> R th) -> good s R s'.
-Proof. intros (I & L & HR) K. split; [auto|split; [auto|]]. intros th S. apply K; auto. Qed.
+Proof. intros (I & L & F & HR) K. split; [auto|split; [auto|split; [auto|]]]. intros th S. apply K; auto. Qed.
 
 (* ------------------------------------------------------------------ *)
 (* specifications (fragment P: subtype mode, no skip flags)            *)
@@ -1101,6 +1182,351 @@ Proof.
         apply tr_ret. eapply TopCase; eauto.
     + destruct (Nat.eqb o Top) eqn:Et; [|apply tr_fail]. apply Nat.eqb_eq in Et. subst o.
       apply tr_ret. eapply TopCase; eauto.
+Qed.
+
+(* ------------------------------------------------------------------ *)
+(* command programs of fragment P                                       *)
+(* ------------------------------------------------------------------ *)
+Inductive cmdP (n : nat) : cmd -> Prop :=
+| cP_inst sc : s_constrs sc = [] -> styg (s_n sc) (s_body sc) -> cmdP n (CInst sc)
+| cP_apply f x b : f < n -> x < n -> cmdP n (CApply f x b).
+
+(* n = number of values pushed so far *)
+Fixpoint progP (n : nat) (cs : list cmd) : Prop :=
+  match cs with
+  | [] => True
+  | c :: r => cmdP n c /\ progP (S n) r
+  end.
+
+Lemma tg_val s vals i : Forall (tg (len s)) vals -> i < length vals -> tg (len s) (val vals i).
+Proof. intros F L. rewrite Forall_forall in F. apply F. apply nth_In. exact L. Qed.
+
+Definition step_of_cmd (c : cmd) (n : nat) : list (nat * nat * nat) :=
+  match c with CApply f x _ => [(f, x, n)] | _ => [] end.
+
+Lemma run_cmd_good fuel c vals s : J s -> Forall (tg (len s)) vals -> cmdP (length vals) c ->
+  tr (run_cmd H fuel c vals) s
+     (fun vals' s' => exists t, vals' = vals ++ [t] /\ tg (len s') t /\
+        good s (fun th => forall f x r, In (f, x, r) (step_of_cmd c (length vals)) ->
+                            StepSem th (val vals f) (val vals x) t) s').
+Proof.
+  intros I Fv Pc. destruct Pc as [sc Nc Sb|f x b Lf Lx]; cbn [run_cmd].
+  - eapply tr_bind; [apply instance_good; auto|]. cbv beta. intros t s1 (I1 & L1 & Tt).
+    apply tr_ret. exists t. split; [reflexivity|split; [exact Tt|]].
+    split; [auto|split; [auto|]]. intros th _ f x r [].
+  - eapply tr_bind; [apply apply_good; auto using tg_val|]. cbv beta. intros t s1 (Tt & G1).
+    apply tr_ret. exists t. split; [reflexivity|split; [exact Tt|]].
+    eapply good_weaken; [exact G1|]. intros th _ St f' x' r' [[= <- <- <-]|[]]. exact St.
+Qed.
+
+Lemma steps_of_cons c cs n : cmdP n c ->
+  steps_of (c :: cs) n = step_of_cmd c n ++ steps_of cs (S n).
+Proof. intros [sc _ _|f x b _ _]; reflexivity. Qed.
+
+Lemma val_app_l vals ext i : i < length vals -> val (vals ++ ext) i = val vals i.
+Proof. intros L. unfold val. apply app_nth1. exact L. Qed.
+
+Lemma val_app_new vals t ext : val (vals ++ t :: ext) (length vals) = t.
+Proof. unfold val. rewrite app_nth2 by lia. rewrite Nat.sub_diag. reflexivity. Qed.
+
+Lemma steps_of_range : forall cs n f x r, progP n cs -> In (f, x, r) (steps_of cs n) ->
+  f < r /\ x < r /\ n <= r.
+Proof.
+  induction cs as [|c cs IH]; intros n f x r P Hin; [destruct Hin|].
+  destruct P as [Pc Pr]. rewrite steps_of_cons in Hin by exact Pc.
+  apply in_app_or in Hin. destruct Hin as [Hin|Hin].
+  - destruct Pc as [sc _ _|f' x' b Lf Lx]; cbn in Hin; [destruct Hin|].
+    destruct Hin as [[= <- <- <-]|[]]. lia.
+  - destruct (IH _ _ _ _ Pr Hin) as (A & B & C). lia.
+Qed.
+
+Theorem run_cmds_good fuel : forall cs i vals s vals' s', J s -> Forall (tg (len s)) vals ->
+  progP (length vals) cs -> run_cmds H fuel cs i vals s = (None, vals', s') ->
+  J s' /\ le s s' /\ Forall (tg (len s')) vals' /\ (exists ext, vals' = vals ++ ext) /\
+  forall th, sat th s' -> forall f x r, In (f, x, r) (steps_of cs (length vals)) ->
+    StepSem th (val vals' f) (val vals' x) (val vals' r).
+Proof.
+  induction cs as [|c cs IH]; intros i vals s vals' s' I Fv P R; cbn [run_cmds] in R.
+  - inversion R; subst. split; [auto|split; [apply le_refl|split; [auto|split]]].
+    + exists []. rewrite app_nil_r. reflexivity.
+    + intros th _ f x r [].
+  - destruct P as [Pc Pr].
+    pose proof (run_cmd_good fuel c vals s I Fv Pc) as T. unfold tr in T.
+    destruct (run_cmd H fuel c vals s) as [vals1 s1|e s1] eqn:Ec; [|discriminate].
+    destruct (T vals1 s1 eq_refl) as (t & -> & Tt & I1 & L1 & R1).
+    assert (Fv1 : Forall (tg (len s1)) (vals ++ [t])).
+    { apply Forall_app. split; [eapply Forall_tg_mono; [apply L1|exact Fv]|constructor; auto]. }
+    assert (Pr1 : progP (length (vals ++ [t])) cs) by (rewrite app_length; cbn; rewrite Nat.add_1_r; exact Pr).
+    destruct (IH (S i) (vals ++ [t]) s1 vals' s' I1 Fv1 Pr1 R) as (I' & L' & Fv' & (ext & ->) & R').
+    split; [auto|split; [eapply le_trans; eauto|split; [auto|split]]].
+    + exists ([t] ++ ext). rewrite app_assoc. reflexivity.
+    + intros th S' f x r Hin. rewrite steps_of_cons in Hin by exact Pc.
+      apply in_app_or in Hin. destruct Hin as [Hin|Hin].
+      * pose proof (proj2 L' th S') as S1. specialize (R1 th S1 f x r Hin).
+        destruct Pc as [sc _ _|f' x' b Lf Lx]; cbn in Hin; [destruct Hin|].
+        destruct Hin as [[= <- <- <-]|[]].
+        rewrite <- app_assoc. cbn [app]. rewrite !val_app_l by lia. rewrite val_app_new. exact R1.
+      * apply R'; [exact S'|]. rewrite app_length. cbn. rewrite Nat.add_1_r. exact Hin.
+Qed.
+
+Lemma J_empty sc : J (empty_store sc).
+Proof.
+  constructor.
+  - intros i. unfold cset_of. cbn. destruct i; reflexivity.
+  - intros v t. unfold cell_of. cbn. destruct v; discriminate.
+  - intros v. unfold cell_of. cbn. split; [|split]; intros; destruct v; discriminate.
+Qed.
+
+Theorem core_sound fuel sc prog vals s : progP 0 prog ->
+  run_cmds H fuel prog 0 [] (empty_store sc) = (None, vals, s) ->
+  forall th, sat th s -> forall f x r, In (f, x, r) (steps_of prog 0) ->
+    StepSem th (val vals f) (val vals x) (val vals r).
+Proof.
+  intros P R. destruct (run_cmds_good fuel prog 0 [] (empty_store sc) vals s (J_empty sc)) as (_ & _ & _ & _ & K);
+    auto.
+Qed.
+
+Theorem core_final_J fuel sc prog vals s : progP 0 prog ->
+  run_cmds H fuel prog 0 [] (empty_store sc) = (None, vals, s) ->
+  J s /\ Forall (tg (len s)) vals.
+Proof.
+  intros P R. destruct (run_cmds_good fuel prog 0 [] (empty_store sc) vals s (J_empty sc)) as (I & _ & F & _);
+    auto.
+Qed.
+
+(* ------------------------------------------------------------------ *)
+(* satisfiability: any assignment of the unbound variables within their *)
+(* bounds extends to a satisfying grounding (bindings are acyclic)      *)
+(* ------------------------------------------------------------------ *)
+Section Extend.
+  Variable s : store.
+  Variable g : nat -> ty.
+
+  Fixpoint gr (fuel : nat) (t : tyv) : ty :=
+    match fuel with
+    | 0 => TOp Top []
+    | S f =>
+        match t with
+        | V v => match c_bound (cell_of s v) with Some t' => gr f t' | None => g v end
+        | O o args => TOp o (map (gr f) args)
+        end
+    end.
+
+  (* depth through bindings and operators *)
+  Inductive dp : tyv -> nat -> Prop :=
+  | dp_unb v n : c_bound (cell_of s v) = None -> dp (V v) (S n)
+  | dp_bnd v t n : c_bound (cell_of s v) = Some t -> dp t n -> dp (V v) (S n)
+  | dp_op o args n : (forall x, In x args -> dp x n) -> dp (O o args) (S n).
+
+  Lemma dp_mono t n : dp t n -> forall m, n <= m -> dp t m.
+  Proof.
+    induction 1 as [v n Hv|v t n Hv D IH|o args n D IH]; intros m L;
+      (destruct m as [|m]; [lia|]).
+    - apply dp_unb; auto.
+    - eapply dp_bnd; eauto. apply IH. lia.
+    - apply dp_op. intros x Hx. apply IH; auto. lia.
+  Qed.
+
+  Lemma wft_dp t : wft s t -> exists n, dp t n.
+  Proof.
+    induction 1 as [v Hv|v t Hv Wt (n & D)|o args Wa IH].
+    - exists 1. apply dp_unb; auto.
+    - exists (S n). eapply dp_bnd; eauto.
+    - assert (G : exists n, forall x, In x args -> dp x n).
+      { clear Wa. induction args as [|a r IHr]; [exists 0; intros x []|].
+        destruct (IH a (or_introl eq_refl)) as (na & Da).
+        destruct IHr as (nr & Dr); [intros x Hx; apply IH; right; exact Hx|].
+        exists (max na nr). intros x [<-|Hx]; eapply dp_mono; eauto; lia. }
+      destruct G as (n & D). exists (S n). apply dp_op. exact D.
+  Qed.
+
+  Lemma gr_stable t n : dp t n -> forall f, n <= f -> gr f t = gr n t.
+  Proof.
+    induction 1 as [v n Hv|v t n Hv D IH|o args n D IH]; intros f L;
+      (destruct f as [|f]; [lia|]); cbn [gr].
+    - rewrite Hv. reflexivity.
+    - rewrite Hv. apply IH. lia.
+    - f_equal. apply map_ext_in. intros x Hx. apply IH; auto. lia.
+  Qed.
+
+  Lemma gr_stable2 t n m : dp t n -> dp t m -> gr n t = gr m t.
+  Proof.
+    intros Dn Dm. destruct (Nat.le_ge_cases n m) as [L|L].
+    - symmetry. apply gr_stable; auto.
+    - apply gr_stable; auto.
+  Qed.
+
+  Hypothesis Ws : wsc s.
+  Hypothesis Is : J s.
+  Hypothesis Gok : forall v, c_bound (cell_of s v) = None -> wf_ty H (g v) /\ inb (cell_of s v) (g v).
+
+  Lemma dp_all_vars : exists N, forall v, dp (V v) (S N).
+  Proof.
+    assert (K : forall k, exists N, forall v, v < k -> dp (V v) (S N)).
+    { induction k as [|k (N & IH)]; [exists 0; intros v L; lia|].
+      destruct (wft_dp (V k) (sc_wf Ws k)) as (n & D).
+      exists (max N n). intros v L. destruct (Nat.eq_dec v k) as [->|Ne].
+      - eapply dp_mono; eauto. lia.
+      - eapply dp_mono; [apply IH; lia|lia]. }
+    destruct (K (len s)) as (N & D). exists N. intros v.
+    destruct (Nat.lt_ge_cases v (len s)) as [L|L]; [auto|].
+    apply dp_unb. rewrite cell_of_oob by exact L. reflexivity.
+  Qed.
+
+  Lemma gr_wf : forall f t n, tg n t -> wf_ty H (gr f t).
+  Proof.
+    induction f as [|f IH]; intros t n Ht; cbn [gr].
+    - apply wf_ty_unfold. rewrite (var_top H W). split; [reflexivity|constructor].
+    - destruct t as [v|o args].
+      + destruct (c_bound (cell_of s v)) as [t'|] eqn:Hv.
+        * eapply IH. eapply J_sc; eauto.
+        * apply Gok. exact Hv.
+      + destruct (tg_args _ _ _ Ht) as [La Fa]. apply wf_ty_unfold. rewrite map_length.
+        split; [exact La|]. rewrite Forall_forall in *. intros x Hx.
+        apply in_map_iff in Hx. destruct Hx as (y & <- & Hy). eapply IH; eauto.
+  Qed.
+
+  Theorem sat_extend : exists th, sat th s /\ forall v, c_bound (cell_of s v) = None -> th v = g v.
+  Proof.
+    destruct dp_all_vars as (N & DN).
+    set (th := fun v => gr (S N) (V v)).
+    assert (A : forall t n, dp t n -> forall f, n <= f -> gr f t = den th t).
+    { induction t as [v|o args IH] using tyv_ind'; intros n D f L.
+      - cbn [den]. unfold th. rewrite (gr_stable _ _ D f L). apply gr_stable2; auto.
+      - inversion D as [| |? ? n' Da]; subst. destruct f as [|f]; [lia|]. cbn [gr den]. f_equal.
+        apply map_ext_in. intros x Hx. rewrite Forall_forall in IH. eapply IH; eauto. lia. }
+    exists th. split.
+    - intros v. split.
+      + unfold th. eapply gr_wf. constructor. apply Nat.lt_succ_diag_r.
+      + destruct (c_bound (cell_of s v)) as [t|] eqn:Hv.
+        * unfold th at 1. cbn [gr]. rewrite Hv.
+          pose proof (DN v) as D. inversion D as [|? t' ? Hv' Dt|]; subst; [congruence|].
+          rewrite Hv in Hv'. injection Hv' as <-. eapply A; eauto.
+        * unfold th. cbn [gr]. rewrite Hv. apply Gok. exact Hv.
+    - intros v Hv. unfold th. cbn [gr]. rewrite Hv. reflexivity.
+  Qed.
+End Extend.
+
+(* the canonical choice: lower bound, else upper bound, else Top *)
+Definition canon (s : store) (v : nat) : ty :=
+  match c_lower (cell_of s v), c_upper (cell_of s v) with
+  | Some l, _ => TOp l []
+  | None, Some u => TOp u []
+  | None, None => TOp Top []
+  end.
+
+Lemma wf_base_ty b : variance H b = [] -> wf_ty H (TOp b []).
+Proof. intros V0. apply wf_ty_unfold. rewrite V0. split; [reflexivity|constructor]. Qed.
+
+Lemma canon_ok s : J s -> forall v, wf_ty H (canon s v) /\ inb (cell_of s v) (canon s v).
+Proof.
+  intros I v. pose proof (J_b s I v) as (Bl & Bu & Bc). unfold canon, inb.
+  destruct (c_lower (cell_of s v)) as [l|] eqn:El; [|destruct (c_upper (cell_of s v)) as [u|] eqn:Eu].
+  - destruct (Bl l eq_refl) as (Vl & _). split; [apply wf_base_ty; auto|]. split.
+    + intros l' [= <-]. exists l. split; [reflexivity|apply ole_refl].
+    + intros u Eu. exists l. split; [reflexivity|]. apply Bc; auto.
+  - destruct (Bu u eq_refl) as (Vu & _). split; [apply wf_base_ty; auto|]. split.
+    + intros l' [=].
+    + intros u' [= <-]. exists u. split; [reflexivity|apply ole_refl].
+  - split; [apply wf_base_ty; apply (var_top H W)|]. split; intros x [=].
+Qed.
+
+Theorem satisfiable s : wsc s -> J s -> exists th, sat th s.
+Proof.
+  intros Ws I. destruct (sat_extend s (canon s) Ws I) as (th & S & _).
+  - intros v _. apply canon_ok. exact I.
+  - exists th. exact S.
+Qed.
+
+(* fragment-P programs are well-scoped in the sense of Infer/Inv.v *)
+Lemma styg_wf n t : styg n t -> sty_wf n t.
+Proof.
+  induction t as [i| |o args IH] using sty_ind'; intros St; inversion St; subst; constructor; auto.
+  rewrite Forall_forall in *. auto.
+Qed.
+
+Lemma progP_wf : forall cs n, progP n cs -> prog_wf n cs.
+Proof.
+  induction cs as [|c cs IH]; intros n P; cbn [prog_wf]; [exact Logic.I|].
+  destruct P as [Pc Pr]. destruct Pc as [sc Nc Sb|f x b Lf Lx].
+  - split; [|apply IH; exact Pr]. cbn [cmd_wf]. split; [apply styg_wf; exact Sb|].
+    rewrite Nc. constructor.
+  - split; [|apply IH; exact Pr]. cbn [cmd_wf]. auto.
+Qed.
+
+Theorem core_satisfiable fuel sc prog vals s : progP 0 prog ->
+  run_cmds H fuel prog 0 [] (empty_store sc) = (None, vals, s) -> exists th, sat th s.
+Proof.
+  intros P R. destruct (core_final_J fuel sc prog vals s P R) as (I & _).
+  destruct (engine_inv H fuel sc prog (progP_wf _ _ P) R) as (Iv & _).
+  apply satisfiable; auto. apply inv_wsc. exact Iv.
+Qed.
+
+(* ------------------------------------------------------------------ *)
+(* connection with the executable grounding of Infer/Witness.v          *)
+(* ------------------------------------------------------------------ *)
+Lemma mapM_Some {A B} (f : A -> option B) : forall l ys, mapM f l = Some ys ->
+  length ys = length l /\ forall i a, nth_error l i = Some a -> exists y, nth_error ys i = Some y /\ f a = Some y.
+Proof.
+  induction l as [|a l IH]; intros ys E; cbn [mapM] in E.
+  - inversion E; subst. split; [reflexivity|]. intros [|i] a' Hn; discriminate.
+  - destruct (f a) as [y|] eqn:Ea; [|discriminate]. destruct (mapM f l) as [ys'|] eqn:El; [|discriminate].
+    inversion E; subst. destruct (IH ys' eq_refl) as [L K]. split; [cbn; lia|].
+    intros [|i] a' Hn; cbn in *.
+    + inversion Hn; subst. eauto.
+    + apply K. exact Hn.
+Qed.
+
+Lemma mapM_map {A B} (f : A -> option B) (h : A -> B) : forall l ys, mapM f l = Some ys ->
+  (forall a y, In a l -> f a = Some y -> y = h a) -> ys = map h l.
+Proof.
+  induction l as [|a l IH]; intros ys E K; cbn [mapM] in E.
+  - inversion E; reflexivity.
+  - destruct (f a) as [y|] eqn:Ea; [|discriminate]. destruct (mapM f l) as [ys'|] eqn:El; [|discriminate].
+    inversion E; subst. cbn [map]. f_equal.
+    + apply K; [left; reflexivity|exact Ea].
+    + apply IH; auto. intros a' y' Hin. apply K. right. exact Hin.
+Qed.
+
+Lemma ground_den th s thl dflt : core s -> sat th s ->
+  (forall v, c_bound (cell_of s v) = None -> th_get thl dflt v = th v) ->
+  forall fuel t d, ground fuel s thl dflt t = Some d -> d = den th t.
+Proof.
+  intros C S Ag. induction fuel as [|f IH]; intros t d E; cbn [ground] in E; [discriminate|].
+  pose proof (follow_unbound_core t C) as Nb. pose proof (den_follow th s t S) as Df.
+  destruct (follow s t) as [v|o args].
+  - inversion E; subst. rewrite <- Df. cbn [den]. apply Ag. exact Nb.
+  - destruct (mapM (ground f s thl dflt) args) as [xs|] eqn:Em; [|discriminate].
+    inversion E; subst. rewrite <- Df. cbn [den]. f_equal.
+    eapply mapM_map; [exact Em|]. intros a y _ Ea. apply IH. exact Ea.
+Qed.
+
+(* StepHolds of Witness.v for EVERY list-grounding within the bounds *)
+Theorem core_StepHolds fuel sc prog vals s : progP 0 prog ->
+  run_cmds H fuel prog 0 [] (empty_store sc) = (None, vals, s) ->
+  forall thl dflt,
+    (forall v, c_bound (cell_of s v) = None ->
+       wf_ty H (th_get thl dflt v) /\ inb (cell_of s v) (th_get thl dflt v)) ->
+  forall f x r, In (f, x, r) (steps_of prog 0) ->
+  forall fuel' df dx dr,
+    ground fuel' s thl dflt (val vals f) = Some df ->
+    ground fuel' s thl dflt (val vals x) = Some dx ->
+    ground fuel' s thl dflt (val vals r) = Some dr ->
+    StepHolds H fuel' s thl dflt (val vals f, val vals x, val vals r).
+Proof.
+  intros P R thl dflt Gok f x r Hin fuel' df dx dr Ef Ex Er.
+  destruct (core_final_J fuel sc prog vals s P R) as (I & _).
+  destruct (engine_inv H fuel sc prog (progP_wf _ _ P) R) as (Iv & _).
+  destruct (sat_extend s (th_get thl dflt) (inv_wsc Iv) I Gok) as (th & S & Ag).
+  assert (Ag' : forall v, c_bound (cell_of s v) = None -> th_get thl dflt v = th v)
+    by (intros v Hv; symmetry; auto).
+  pose proof (ground_den th s thl dflt (inv_core Iv) S Ag' fuel') as GD.
+  pose proof (core_sound fuel sc prog vals s P R th S f x r Hin) as St.
+  pose proof (GD _ _ Ef) as Df. pose proof (GD _ _ Ex) as Dx. pose proof (GD _ _ Er) as Dr.
+  subst df dx dr. unfold StepHolds.
+  destruct St as [(a & b & E1 & E2 & E3)|[E1 E2]].
+  - left. exists a, b, (den th (val vals x)). rewrite Ef, Ex, Er, E1, E3. auto.
+  - right. rewrite Ef, Er, E1, E2. auto.
 Qed.
 
 (*NEXT*)
